@@ -466,6 +466,37 @@ def nonnull_names(repo, f):
     return out
 
 
+def _bind_receiver(h, skip, call, b, caller):
+    """the implicit first parameter of a method spliced into a caller with a different receiver: `cls` of a class method
+    called on a class / through an instance, `self` of a method called on another object"""
+    if b is None or not skip:
+        return b
+    a = h.node.args
+    ps = [p.arg for p in a.posonlyargs + a.args]
+    if not ps:
+        return b
+    first = ps[0]
+    recv = call.func.value if isinstance(call.func, ast.Attribute) else None
+    if recv is None:
+        return b
+    if h.is_classmethod:
+        if isinstance(recv, ast.Name) and recv.id == "cls" and caller.is_classmethod:
+            return b                                   # same cls
+        if isinstance(recv, ast.Name) and recv.id == "self":
+            val = ast.Call(func=ast.Name(id="type", ctx=ast.Load()), args=[ast.Name(id="self", ctx=ast.Load())], keywords=[])
+        else:
+            val = recv                                 # ClassName._helper(...)
+        b = dict(b)
+        b[first] = val
+        return b
+    # instance method: self.m(...) inside a method of the same object keeps `self`
+    if isinstance(recv, ast.Name) and recv.id == "self":
+        return b
+    b = dict(b)
+    b[first] = recv
+    return b
+
+
 def _hoistable_calls(e, allow_top=False):
     """calls nested in expression e that are evaluated unconditionally exactly once (not under lambda, comprehension,
     conditional expression or a short-circuit operator's later operands)"""
@@ -493,7 +524,7 @@ def _hoist(st, repo, f, new_funcs, resolve_helper, bind_args, caller_names, coun
         h, skip = resolve_helper(repo, f, call)
         if h is None or h.qname not in new_funcs or h.node is f.node or not splicable(h):
             continue
-        b = bind_args(h, skip, call)
+        b = _bind_receiver(h, skip, call, bind_args(h, skip, call), f)
         if b is None:
             continue
         counter[0] += 1
@@ -753,6 +784,7 @@ def inline_new_helpers(repo, new_funcs, resolve_helper, bind_args, max_rounds=2)
                         h, skip = resolve_helper(repo, f, call)
                         if h is not None and h.qname in new_funcs and h.node is not f.node and splicable(h):
                             b = bind_args(h, skip, call)
+                            b = _bind_receiver(h, skip, call, b, f)
                             if b is not None:
                                 counter[0] += 1
                                 rep = splice(h, b, context, target, caller_names, f"h{counter[0]}", nonnull=nonnull_names(repo, f))
@@ -763,6 +795,13 @@ def inline_new_helpers(repo, new_funcs, resolve_helper, bind_args, max_rounds=2)
                                     report.setdefault(q, []).append(h.qname)
                                     changed = True
                                     continue
+                        # the call itself could not be spliced (star-args, unsupported body): still hoist helper calls nested in it
+                        if getattr(st, "value", None) is not None and isinstance(st, (ast.Expr, ast.Assign, ast.Return)):
+                            hoisted = _hoist(st, repo, f, new_funcs, resolve_helper, bind_args, caller_names, counter, report, q)
+                            if hoisted is not None:
+                                out += hoisted
+                                changed = True
+                                continue
                     out.append(st)
                 return out
             f.node.body = rewrite(f.node.body)
